@@ -31,6 +31,107 @@ func fileHash(path string) string {
 	return fmt.Sprintf("%x", sha256.Sum256(b))
 }
 
+// replayCompactCalls executes the model's destination calls (Compact.compactTxs: `tx`, `mkb`,
+// `seq`, `put`, `end` lines) through the public API the way Compact does (FillPercent 1.0 on
+// the bucket a key or nested bucket is added to; every transaction re-navigates from the root).
+func replayCompactCalls(dst string, pageSize int, lines []string) (err error) {
+	defer func() {
+		if r := recover(); r != nil {
+			err = fmt.Errorf("panic: %v", r)
+		}
+	}()
+	d, err := bolt.Open(dst, 0o600, &bolt.Options{Timeout: time.Second, PageSize: pageSize})
+	if err != nil {
+		return err
+	}
+	defer d.Close()
+	var tx *bolt.Tx
+	defer func() {
+		if tx != nil {
+			_ = tx.Rollback()
+		}
+	}()
+	nav := func(path string) *bolt.Bucket {
+		if path == "-" {
+			return nil
+		}
+		var b *bolt.Bucket
+		for i, h := range strings.Split(path, "/") {
+			if i == 0 {
+				b = tx.Bucket([]byte(unhx(h)))
+			} else {
+				b = b.Bucket([]byte(unhx(h)))
+			}
+		}
+		return b
+	}
+	for _, ln := range lines {
+		f := strings.Fields(ln)
+		if len(f) == 0 {
+			continue
+		}
+		switch f[0] {
+		case "tx", "end":
+			if tx != nil {
+				if err := tx.Commit(); err != nil {
+					tx = nil
+					return err
+				}
+				tx = nil
+			}
+			if f[0] == "tx" {
+				if tx, err = d.Begin(true); err != nil {
+					return err
+				}
+			}
+		case "mkb":
+			if b := nav(f[1]); b == nil {
+				_, err = tx.CreateBucket([]byte(unhx(f[2])))
+			} else {
+				b.FillPercent = 1.0
+				_, err = b.CreateBucket([]byte(unhx(f[2])))
+			}
+		case "seq":
+			var n uint64
+			fmt.Sscan(f[2], &n)
+			err = nav(f[1]).SetSequence(n)
+		case "put":
+			b := nav(f[1])
+			b.FillPercent = 1.0
+			err = b.Put([]byte(unhx(f[2])), []byte(unhx(f[3])))
+		default:
+			err = fmt.Errorf("unknown line %q", ln)
+		}
+		if err != nil {
+			return fmt.Errorf("%s: %w", truncate(ln, 60), err)
+		}
+	}
+	return nil
+}
+
+// shapeOf: everything about a compacted file that does not depend on the order in which one
+// commit hands out page ids (Go map iteration): content, txid, high-water mark, file size,
+// free-page count and the page/byte statistics of every top-level bucket (nested ones included).
+func shapeOf(path string) string {
+	db, err := bolt.Open(path, 0o600, &bolt.Options{ReadOnly: true, PreLoadFreelist: true, Timeout: time.Second})
+	if err != nil {
+		return "unopenable: " + err.Error()
+	}
+	defer db.Close()
+	var sb strings.Builder
+	txid, _, _, _, pgid := db.VerifMeta()
+	fi, _ := os.Stat(path)
+	fmt.Fprintf(&sb, "dump=%s txid=%d hwm=%d size=%d", hashStr(dumpDB(db)), txid, pgid, fi.Size())
+	_ = db.View(func(tx *bolt.Tx) error {
+		fmt.Fprintf(&sb, " free=%d", tx.DB().Stats().FreePageN)
+		return tx.ForEach(func(name []byte, b *bolt.Bucket) error {
+			fmt.Fprintf(&sb, " %s=%+v", hx(string(name)), b.Stats())
+			return nil
+		})
+	})
+	return sb.String()
+}
+
 func compactEngine() {
 	start := time.Now()
 	rep := newReport("compact")
@@ -140,6 +241,28 @@ func compactEngine() {
 							rep.Disagree++
 							rep.violation("C15", "correspondence", "compact-model-vs-impl", fmt.Sprintf("limit %d: destination dump %s at txid %d; the model predicts %s after %d+1 transactions (err=%v)", limit, dstDump, dtxid, mh, commits, merr), rp)
 						}
+					}
+				}
+				// the model's destination CALLS, transaction by transaction, replayed through the real API
+				if *flagModel != "" && mode == "lib" {
+					out, err := exec.Command(*flagModel, "compactcalls", src, fmt.Sprint(os.Getpagesize()), fmt.Sprint(limit)).Output()
+					lines := strings.Split(strings.TrimSpace(string(out)), "\n")
+					if err != nil || len(lines) < 2 || lines[len(lines)-1] != "end" {
+						rep.violation("C15", "correspondence", "model-driver-failed", truncate(string(out), 100), rp)
+					} else {
+						rdst := dst + ".replay"
+						_ = os.Remove(rdst)
+						rep.Evaluations++
+						if err := replayCompactCalls(rdst, o.PageSize, lines); err != nil {
+							rep.Disagree++
+							rep.violation("C15", "correspondence", "compact-calls-vs-impl", fmt.Sprintf("limit %d: the model's destination calls do not run through the API: %v", limit, err), rp)
+						} else if a, b := shapeOf(dst), shapeOf(rdst); a != b {
+							rep.Disagree++
+							rep.violation("C15", "correspondence", "compact-calls-vs-impl", fmt.Sprintf("limit %d: Compact produced [%s]; the model's calls (%d lines) replayed through the API produce [%s]", limit, truncate(a, 400), len(lines), truncate(b, 400)), rp)
+						} else {
+							rep.count("calls-replayed")
+						}
+						_ = os.Remove(rdst)
 					}
 				}
 				rep.count(mode)
